@@ -122,56 +122,98 @@ def account(ctx, events):
     return len(hists)
 
 
+def parallel(jobs):
+    """run the TLC jobs side by side (each is a separate JVM); returns results in order"""
+    import threading
+    import time
+    out = [None] * len(jobs)
+    err = [None] * len(jobs)
+
+    def w(i, f):
+        try:
+            out[i] = f()
+        except BaseException as e:     # noqa: BLE001 - re-raised in the caller's thread
+            err[i] = e
+    ts = []
+    for i, f in enumerate(jobs):
+        t = threading.Thread(target=w, args=(i, f))
+        t.start()
+        ts.append(t)
+        time.sleep(0.4)                # the runner numbers its work directories at call start
+    for t in ts:
+        t.join()
+    for e in err:
+        if e is not None:
+            raise e
+    return out
+
+
 def run(ctx):
     quick = ctx.tier == "quick"
+    ctx._stage_spec()
     # 1. the closed model: invariants and action properties, exhaustive
-    r = ctx.tlc("Ballotbox", "Ballotbox_mc_quick.cfg" if quick else "Ballotbox_mc_thorough.cfg", timeout=1500)
+    # 2. implementation-level clean(): removal key computed from the record with prefix "sign-" (what the pinned
+    #    tree did) - TLC compares it with the release the statement asks for; the counterexample is a candidate
+    # 3. behaviours of the closed model as input scripts
+    r, ri, sim = parallel([
+        lambda: ctx.tlc("Ballotbox", "Ballotbox_mc_quick.cfg" if quick else "Ballotbox_mc_thorough.cfg", timeout=1800),
+        lambda: ctx.tlc("Ballotbox", "Ballotbox_impl_clean.cfg", allow_violation=True, count=False, timeout=900, workers=4),
+        lambda: ctx.tlc_simulate("Ballotbox", "Ballotbox_sim.cfg", num=60 if quick else 800, depth=40),
+    ])
     ctx.exhaustive = True
     ctx.extra["model_states"] = r.distinct
     scripts = []
-    # 2. implementation-level clean(): removal key computed from the record with prefix "sign-" (what the pinned
-    #    tree did) - TLC compares it with the release the statement asks for; the counterexample is a candidate
-    ri = ctx.tlc("Ballotbox", "Ballotbox_impl_clean.cfg", allow_violation=True, count=False, timeout=900)
     cex = []
     if ri.safety_violation:
         cex = counterexample_steps(ctx, ri.out)
         scripts.append(steps_to_history(cex, tag="cex-clean-prefix"))
         ctx.extra["impl_model_counterexample"] = {"violated": ri.violated, "steps": [s for s in cex if s]}
-    # 3. behaviours of the closed model as input scripts
-    _, behs = ctx.tlc_simulate("Ballotbox", "Ballotbox_sim.cfg", num=60 if quick else 600, depth=40)
-    for i, b in enumerate(behs):
+    for i, b in enumerate(sim[1]):
         h = steps_to_history(b, tag="sim%d" % i)
         if h["ops"]:
             scripts.append(h)
     sp = os.path.join(ctx.work, "scripts.ndjson")
     core.write_ndjson(sp, scripts)
-    t1 = os.path.join(ctx.work, "trace_scripts.ndjson")
-    ctx.vh(["C05", "run", "--in", sp, "--out", t1], timeout=900)
-    ev1, res1 = validate(ctx, t1, "model-scripts")
-    account(ctx, ev1)
-    judge(ctx, ev1, res1, "model-scripts")
-    # was the implementation-level counterexample reproduced by the real code?
-    if cex:
-        first_hist_classes = set()
-        for (cls, line, info) in res1.mismatches():
-            start, _ = history_of(ev1, line)
-            if start == 0 and cls.startswith(PREFIX):
-                first_hist_classes.add(cls)
-        if not first_hist_classes:
-            ctx.extra["model_only_counterexamples"] = [{"config": "Ballotbox_impl_clean.cfg", "violated": ri.violated,
-                                                        "note": "clean() of this tree releases what the statement asks for"}]
-    # 4. seeded random histories: sequential, and with a concurrent part
-    runs = [("random-seq", ["--num", 40 if quick else 500, "--len", 36, "--nmax", 9, "--conc", 0]),
-            ("random-conc", ["--num", 30 if quick else 400, "--len", 24, "--nmax", 7, "--conc", 1])]
-    for name, a in runs:
+    # 4. the real ballot box: the scripts, then seeded random histories (sequential / with a concurrent part)
+    parts = [("model-scripts", ["run", "--in", sp]),
+             ("random-seq", ["record", "--num", 36 if quick else 600, "--len", 36, "--nmax", 9, "--conc", 0]),
+             ("random-conc", ["record", "--num", 30 if quick else 500, "--len", 24, "--nmax", 7, "--conc", 1])]
+    traces = []
+    for name, a in parts:
         t = os.path.join(ctx.work, "trace_%s.ndjson" % name)
-        p = ctx.vh(["C05", "record"] + a + ["--out", t], timeout=1200)
+        p = ctx.vh(["C05"] + a + ["--out", t], timeout=1200)
         m = re.search(r"unsettled=(\d+)", p.stdout)
         if m and int(m.group(1)) > 0:
             ctx.extra["unsettled_calls"] = ctx.extra.get("unsettled_calls", 0) + int(m.group(1))
-        ev, res = validate(ctx, t, name)
+        traces.append((name, t))
+    if quick:
+        # one JVM for everything: the recordings are concatenated (every history starts with a Reset; the pool and
+        # its counters are per process: the first Reset of a recording says "newproc" and the trace spec re-bases)
+        groups = [("all", [t for _, t in traces])]
+    else:
+        groups = [(n, [t]) for n, t in traces]
+    jobs = []
+    for name, files in groups:
+        path = os.path.join(ctx.work, "trace_%s_cat.ndjson" % name)
+        with open(path, "w") as out:
+            for f in files:
+                out.write(open(f).read())
+        jobs.append((name, path))
+    results = parallel([(lambda n=n, p=p: validate(ctx, p, n)) for n, p in jobs]) if len(jobs) > 1 else [validate(ctx, jobs[0][1], jobs[0][0])]
+    cex_reproduced = False
+    for (name, path), (ev, res) in zip(jobs, results):
         account(ctx, ev)
         judge(ctx, ev, res, name)
+        if cex and name in ("all", "model-scripts"):
+            for (cls, line, info) in res.mismatches():
+                start, _ = history_of(ev, line)
+                if start == 0 and cls.startswith(PREFIX):
+                    cex_reproduced = True
+    # was the implementation-level counterexample reproduced by the real code?
+    if cex and not cex_reproduced:
+        ctx.extra["model_only_counterexamples"] = [{"config": "Ballotbox_impl_clean.cfg", "violated": ri.violated,
+                                                    "note": "the transcription with CleanSC=\"sign-\" (the pinned tree) leaves a "
+                                                    "suffrage-confirm record reachable; clean() of this tree releases it"}]
     ctx.rule = ("one case = one history on a fresh real Ballotbox (suffrage of 1..9 really keyed nodes, threshold, ordered calls "
                 "Vote/Count/SetLastPoint/Voted/MissingNodes with their ballots); non-trivial = at least one clean cycle handed "
                 "a record back to the pool; distinct by (suffrage, local, threshold, call sequence)")
